@@ -604,6 +604,22 @@ func init() {
 			},
 		},
 		{
+			// null_if compares with reflect.DeepEqual: int 0 and float64 0 are different
+			name: "nullif-numeric-equal",
+			detect: func(c *Case, ctx string) bool {
+				if !isExpr(c) {
+					return false
+				}
+				return anyNode(c, func(n *Node, tr map[*Node]rv) bool {
+					if n.Op != "call" || n.V != "null_if" || len(n.K) != 2 {
+						return false
+					}
+					x, y := tr[n.K[0]], tr[n.K[1]]
+					return x.k == 'n' && y.k == 'n' && x.f == y.f
+				})
+			},
+		},
+		{
 			// simple CASE: NULL subject matches a NULL WHEN value
 			name: "scase-null-match",
 			detect: func(c *Case, ctx string) bool {
